@@ -346,4 +346,494 @@ Proof.
   unfold gen_DistNormalTrunc_inverse_cumulative_probability_not_truncated. unc. unm. dgo.
 Qed.
 
+(* ---- DistNormal / DistLogNormal: the two attributes of the cached gaussian ---- *)
+(* what the model sees of a result that carries the attribute values *)
+Definition ms_view {A : Type} (x : res A * (bool * F) * list F) : res (A * option F) * list F :=
+  match x with
+  | (Val a, st, r) => (Val (a, cache_of st), r)
+  | (Err e, _, r) => (Err e, r)
+  end.
+(* with an exception the attributes are as before the call *)
+Definition ms_err_keeps {A : Type} (st : bool * F) (x : res A * (bool * F) * list F) : Prop :=
+  match x with
+  | (Err _, st', _) => st' = st
+  | _ => True
+  end.
+
+Lemma gen_DistNormal__next_gaussian_loop1_eq : forall fuel us h sv s, (length us < fuel)%nat ->
+  gen_DistNormal__next_gaussian_loop1 N fuel h sv s us =
+  match polar_loop N false us with
+  | (Val (v1, v2, s2), r) =>
+      match nlog N s2 with
+      | Err e => (Err e, (h, sv), r)
+      | Val l =>
+          match div N (mul N (neg N (ofZ N 2)) l) s2 with
+          | Err e => (Err e, (h, sv), r)
+          | Val q =>
+              match nsqrt N q with
+              | Err e => (Err e, (h, sv), r)
+              | Val norm => (Val (mul N v1 norm), (true, mul N v2 norm), r)
+              end
+          end
+      end
+  | (Err e, r) => (Err e, (h, sv), r)
+  end.
+Proof.
+  induction fuel as [|f IH]; intros us h sv s H; [lia|].
+  destruct us as [|u1 [|u2 r]]; cbn [gen_DistNormal__next_gaussian_loop1 polar_loop]; unc; unm; cbn [next]; nrm;
+    try reflexivity.
+  cbn [negb andb].
+  destruct (leb N (ofZ N 1) _ || eqb N _ (ofZ N 0)).
+  - apply IH. simpl in H. lia.
+  - brk.
+Qed.
+
+Theorem gen_DistNormal__next_gaussian_eq : forall h sv us,
+  ms_view (gen_DistNormal__next_gaussian N h sv us) = next_gaussian N false (cache_of (h, sv)) us /\
+  ms_err_keeps (h, sv) (gen_DistNormal__next_gaussian N h sv us).
+Proof.
+  intros. unfold gen_DistNormal__next_gaussian, next_gaussian, cache_of. cbn [fst snd].
+  destruct h; [split; reflexivity|].
+  unfold with_fuel. rewrite gen_DistNormal__next_gaussian_loop1_eq by lia. unc. unm.
+  destruct (polar_loop N false us) as [[[[v1 v2] s2]|e] r]; [|split; reflexivity].
+  nrm. split; brk.
+Qed.
+
+Theorem gen_DistNormal_draw_eq : forall mu sigma h sv us,
+  ms_view (gen_DistNormal_draw N mu sigma h sv us) = draw_normal N false mu sigma (cache_of (h, sv)) us /\
+  ms_err_keeps (h, sv) (gen_DistNormal_draw N mu sigma h sv us).
+Proof.
+  intros. unfold gen_DistNormal_draw, draw_normal. unm.
+  destruct (gen_DistNormal__next_gaussian_eq h sv us) as [A B]. rewrite <- A.
+  destruct (gen_DistNormal__next_gaussian N h sv us) as [[[g|e] [h' sv']] r]; cbn in *; split; congruence.
+Qed.
+
+(* draw_c: result, cache afterwards (also with an exception), rest of the stream output *)
+Definition ms_view_c {A : Type} (x : res A * (bool * F) * list F) : res A * option F * list F :=
+  match x with (a, st, r) => (a, cache_of st, r) end.
+
+Theorem gen_DistNormal_draw_c_eq : forall mu sigma h sv us,
+  draw_c N false (DNormal mu sigma) (cache_of (h, sv)) us =
+  ms_view_c (let '(a, st, r) := gen_DistNormal_draw N mu sigma h sv us in (rmap VF a, st, r)).
+Proof.
+  intros. unfold draw_c. cbn [draw]. unfold bind.
+  destruct (gen_DistNormal_draw_eq mu sigma h sv us) as [A B]. rewrite <- A.
+  destruct (gen_DistNormal_draw N mu sigma h sv us) as [[[g|e] st] r]; cbn in *; unm; [reflexivity|].
+  subst st. reflexivity.
+Qed.
+
+Theorem gen_DistLogNormal_draw_c_eq : forall mu sigma c2 c2p h sv us,
+  draw_c N false (DLogNormal mu sigma c2 c2p) (cache_of (h, sv)) us =
+  ms_view_c (let '(a, st, r) := gen_DistLogNormal_draw N mu sigma c2 c2p h sv us in (rmap VF a, st, r)).
+Proof.
+  intros. unfold draw_c, gen_DistLogNormal_draw. unm.
+  destruct (gen_DistNormal_draw_eq mu sigma h sv us) as [A B]. rewrite <- A.
+  destruct (gen_DistNormal_draw N mu sigma h sv us) as [[[g|e] [h' sv']] r]; cbn in *.
+  - destruct (nexp N g); reflexivity.
+  - inversion B. reflexivity.
+Qed.
+
+(* ====================================================================== *)
+(* densities, probabilities, cdfs, inverse cdfs                            *)
+(* ====================================================================== *)
+Ltac dens := intros; cbv beta iota zeta delta [pdf prob cdf icdf tri_pdf normal_kernel normal_icdf cum_prob_nt beta_fn rbind
+                                              zero one two half as_float check negb]; brk; try congruence.
+
+Theorem gen_DistBeta_probability_density_eq : forall a1 a2 g1 g2 x,
+  gen_DistBeta_probability_density N a1 a2 g1 g2 x = pdf N false (DBeta a1 a2 g1 g2) x.
+Proof. unfold gen_DistBeta_probability_density. dens. Qed.
+
+Theorem gen_DistConstant_probability_density_eq : forall c x,
+  gen_DistConstant_probability_density N c x = pdf N false (DConstant c) x.
+Proof. unfold gen_DistConstant_probability_density. dens. Qed.
+
+Theorem gen_DistErlang_probability_density_eq : forall scale k lam g x,
+  gen_DistErlang_probability_density N scale k lam g x = pdf N false (DErlang scale k lam g) x.
+Proof. unfold gen_DistErlang_probability_density. dens. Qed.
+
+Theorem gen_DistExponential_probability_density_eq : forall mean x,
+  gen_DistExponential_probability_density N mean x = pdf N false (DExponential mean) x.
+Proof. unfold gen_DistExponential_probability_density. dens. Qed.
+
+Theorem gen_DistGamma_probability_density_eq : forall shape scale x,
+  gen_DistGamma_probability_density N shape scale x = pdf N false (DGamma shape scale) x.
+Proof. unfold gen_DistGamma_probability_density. dens. Qed.
+
+Theorem gen_DistLogNormal_probability_density_eq : forall mu sigma c2 c2p x,
+  gen_DistLogNormal_probability_density N mu sigma c2 c2p x = pdf N false (DLogNormal mu sigma c2 c2p) x.
+Proof. unfold gen_DistLogNormal_probability_density. dens. Qed.
+
+Theorem gen_DistNormal_probability_density_eq : forall mu sigma x,
+  gen_DistNormal_probability_density N mu sigma x = pdf N false (DNormal mu sigma) x.
+Proof. unfold gen_DistNormal_probability_density. dens. Qed.
+
+Theorem gen_DistNormalTrunc_probability_density_eq : forall mu sigma lo hi cplo cpdiff fac x,
+  gen_DistNormalTrunc_probability_density N mu sigma lo hi cplo cpdiff fac x = pdf N false (DNormalTrunc mu sigma lo hi cplo cpdiff fac) x.
+Proof. unfold gen_DistNormalTrunc_probability_density. dens. Qed.
+
+Theorem gen_DistPearson5_probability_density_eq : forall alpha beta g x,
+  gen_DistPearson5_probability_density N alpha beta g x = pdf N false (DPearson5 alpha beta g) x.
+Proof. unfold gen_DistPearson5_probability_density. dens. Qed.
+
+Theorem gen_DistPearson6_probability_density_eq : forall a1 a2 beta g1 g2 x,
+  gen_DistPearson6_probability_density N a1 a2 beta g1 g2 x = pdf N false (DPearson6 a1 a2 beta g1 g2) x.
+Proof. unfold gen_DistPearson6_probability_density. dens. Qed.
+
+Theorem gen_DistTriangular_probability_density_eq : forall lo mode hi x,
+  gen_DistTriangular_probability_density N lo mode hi x = pdf N false (DTriangular lo mode hi) x.
+Proof. unfold gen_DistTriangular_probability_density. dens. Qed.
+
+Theorem gen_DistUniform_probability_density_eq : forall lo hi x,
+  gen_DistUniform_probability_density N lo hi x = pdf N false (DUniform lo hi) x.
+Proof. unfold gen_DistUniform_probability_density. dens. Qed.
+
+Theorem gen_DistWeibull_probability_density_eq : forall alpha beta x,
+  gen_DistWeibull_probability_density N alpha beta x = pdf N false (DWeibull alpha beta) x.
+Proof. unfold gen_DistWeibull_probability_density. dens. Qed.
+
+Theorem gen_DistBernoulli_probability_eq : forall p k,
+  gen_DistBernoulli_probability N p k = prob N (DBernoulli p) k.
+Proof. unfold gen_DistBernoulli_probability. dens. Qed.
+
+Theorem gen_DistBinomial_probability_eq : forall n p k,
+  gen_DistBinomial_probability N n p k = prob N (DBinomial n p) k.
+Proof. unfold gen_DistBinomial_probability. dens. Qed.
+
+Theorem gen_DistDiscreteUniform_probability_eq : forall lo hi k,
+  gen_DistDiscreteUniform_probability N lo hi k = prob N (DDiscreteUniform lo hi) k.
+Proof. unfold gen_DistDiscreteUniform_probability. dens. Qed.
+
+Theorem gen_DistGeometric_probability_eq : forall p lnp k,
+  gen_DistGeometric_probability N p lnp k = prob N (DGeometric p lnp) k.
+Proof. unfold gen_DistGeometric_probability. dens. Qed.
+
+Theorem gen_DistNegBinomial_probability_eq : forall s p lnp k,
+  gen_DistNegBinomial_probability N s p lnp k = prob N (DNegBinomial s p lnp) k.
+Proof. unfold gen_DistNegBinomial_probability. dens. Qed.
+
+Theorem gen_DistPoisson_probability_eq : forall rate expl k,
+  gen_DistPoisson_probability N rate expl k = prob N (DPoisson rate expl) k.
+Proof. unfold gen_DistPoisson_probability. dens. Qed.
+
+Theorem gen_DistNormal_cumulative_probability_eq : forall mu sigma x,
+  gen_DistNormal_cumulative_probability N mu sigma x = cdf N (DNormal mu sigma) x.
+Proof. unfold gen_DistNormal_cumulative_probability. dens. Qed.
+
+Theorem gen_DistNormal_inverse_cumulative_probability_eq : forall mu sigma y,
+  gen_DistNormal_inverse_cumulative_probability N mu sigma y = icdf N (DNormal mu sigma) y.
+Proof. unfold gen_DistNormal_inverse_cumulative_probability. dens. Qed.
+
+Theorem gen_DistLogNormal_cumulative_probability_eq : forall mu sigma c2 c2p x,
+  gen_DistLogNormal_cumulative_probability N mu sigma c2 c2p x = cdf N (DLogNormal mu sigma c2 c2p) x.
+Proof. unfold gen_DistLogNormal_cumulative_probability, gen_DistNormal_cumulative_probability. dens. Qed.
+
+Theorem gen_DistLogNormal_inverse_cumulative_probability_eq : forall mu sigma c2 c2p y,
+  gen_DistLogNormal_inverse_cumulative_probability N mu sigma c2 c2p y = icdf N (DLogNormal mu sigma c2 c2p) y.
+Proof. unfold gen_DistLogNormal_inverse_cumulative_probability, gen_DistNormal_inverse_cumulative_probability. dens. Qed.
+
+Theorem gen_DistNormalTrunc_cumulative_probability_eq : forall mu sigma lo hi cplo cpdiff fac x,
+  gen_DistNormalTrunc_cumulative_probability N mu sigma lo hi cplo cpdiff fac x = cdf N (DNormalTrunc mu sigma lo hi cplo cpdiff fac) x.
+Proof. unfold gen_DistNormalTrunc_cumulative_probability, gen_DistNormalTrunc_cumulative_probability_not_truncated. dens. Qed.
+
+Theorem gen_DistNormalTrunc_inverse_cumulative_probability_eq : forall mu sigma lo hi cplo cpdiff fac y,
+  gen_DistNormalTrunc_inverse_cumulative_probability N mu sigma lo hi cplo cpdiff fac y = icdf N (DNormalTrunc mu sigma lo hi cplo cpdiff fac) y.
+Proof. unfold gen_DistNormalTrunc_inverse_cumulative_probability, gen_DistNormalTrunc_inverse_cumulative_probability_not_truncated. dens. Qed.
+
+(* ====================================================================== *)
+(* the generated model as a whole                                          *)
+(* ====================================================================== *)
+(* constructor of class c on a parameter list, generated *)
+Definition gen_ctor (c : cls) (sok : bool) (ps : list (param F)) : res (dist F) :=
+  match c, ps with
+  | CBernoulli, [p] => gen_DistBernoulli___init__ N sok p
+  | CBeta, [a1; a2] => gen_DistBeta___init__ N sok a1 a2
+  | CBinomial, [n; p] => gen_DistBinomial___init__ N sok n p
+  | CConstant, [k] => gen_DistConstant___init__ N sok k
+  | CDiscreteUniform, [lo; hi] => gen_DistDiscreteUniform___init__ N sok lo hi
+  | CErlang, [scale; k] => gen_DistErlang___init__ N sok scale k
+  | CExponential, [mean] => gen_DistExponential___init__ N sok mean
+  | CGamma, [shape; scale] => gen_DistGamma___init__ N sok shape scale
+  | CGeometric, [p] => gen_DistGeometric___init__ N sok p
+  | CNegBinomial, [s; p] => gen_DistNegBinomial___init__ N sok s p
+  | CNormal, [mu; sigma] => rmap fst (gen_DistNormal___init__ N sok mu sigma)
+  | CLogNormal, [mu; sigma] => rmap fst (gen_DistLogNormal___init__ N sok mu sigma)
+  | CNormalTrunc, [mu; sigma; lo; hi] => gen_DistNormalTrunc___init__ N sok mu sigma lo hi
+  | CPearson5, [alpha; beta] => gen_DistPearson5___init__ N sok alpha beta
+  | CPearson6, [a1; a2; beta] => gen_DistPearson6___init__ N sok a1 a2 beta
+  | CPoisson, [rate] => gen_DistPoisson___init__ N sok rate
+  | CTriangular, [lo; mode; hi] => gen_DistTriangular___init__ N sok lo mode hi
+  | CUniform, [lo; hi] => gen_DistUniform___init__ N sok lo hi
+  | CWeibull, [alpha; beta] => gen_DistWeibull___init__ N sok alpha beta
+  | _, _ => Err Unmodelled
+  end.
+
+Theorem gen_ctor_eq : forall c sok ps, gen_ctor c sok ps = ctor N false c sok ps.
+Proof.
+  intros c sok ps.
+  destruct c; destruct ps as [|p1 [|p2 [|p3 [|p4 [|p5 l]]]]]; try reflexivity; cbn [gen_ctor];
+    first [ apply gen_DistBernoulli___init___eq | apply gen_DistBeta___init___eq | apply gen_DistBinomial___init___eq
+          | apply gen_DistConstant___init___eq | apply gen_DistDiscreteUniform___init___eq | apply gen_DistErlang___init___eq
+          | apply gen_DistExponential___init___eq | apply gen_DistGamma___init___eq | apply gen_DistGeometric___init___eq
+          | apply gen_DistNegBinomial___init___eq | apply gen_DistNormalTrunc___init___eq | apply gen_DistPearson5___init___eq
+          | apply gen_DistPearson6___init___eq | apply gen_DistPoisson___init___eq | apply gen_DistTriangular___init___eq
+          | apply gen_DistUniform___init___eq | apply gen_DistWeibull___init___eq
+          | rewrite gen_DistNormal___init___eq; destruct (ctor N false CNormal sok [p1; p2]); reflexivity
+          | rewrite gen_DistLogNormal___init___eq; destruct (ctor N false CLogNormal sok [p1; p2]); reflexivity ].
+Qed.
+
+(* a freshly constructed DistNormal / DistLogNormal has no cached gaussian *)
+Theorem gen_normal_init_no_cache : forall sok mu sigma d st,
+  (gen_DistNormal___init__ N sok mu sigma = Val (d, st) \/ gen_DistLogNormal___init__ N sok mu sigma = Val (d, st)) ->
+  cache_of st = None.
+Proof.
+  intros sok mu sigma d st [H|H];
+    [rewrite gen_DistNormal___init___eq in H; destruct (ctor N false CNormal sok [mu; sigma])
+    |rewrite gen_DistLogNormal___init___eq in H; destruct (ctor N false CLogNormal sok [mu; sigma])];
+    cbn in H; inversion H; reflexivity.
+Qed.
+
+(* what the constructor builds satisfies the consistency the Erlang agreement needs *)
+Definition dist_consistent (d : dist F) : Prop :=
+  match d with DErlang _ k _ g => erlang_consistent k g | _ => True end.
+
+Theorem ctor_consistent : forall c sok ps d, ctor N false c sok ps = Val d -> dist_consistent d.
+Proof.
+  intros c sok ps d H.
+  destruct c; try (destruct ps as [|p1 [|p2 [|p3 [|p4 [|p5 l]]]]]; try discriminate H;
+                   cbv beta iota zeta delta [ctor rbind] in H;
+                   repeat match type of H with
+                          | match ?x with _ => _ end = _ => destruct x; try discriminate H
+                          end; inversion H; exact I).
+  destruct ps as [|p1 [|p2 [|p3 l]]]; try discriminate H.
+  cbv beta iota zeta delta [ctor rbind] in H.
+  destruct (p_int N p2 <? 10)%Z eqn:E;
+    repeat match type of H with
+           | match ?x with _ => _ end = _ => destruct x; try discriminate H
+           end;
+    inversion H; cbn; unfold erlang_consistent; rewrite E; [reflexivity|discriminate].
+Qed.
+
+(* draw() on an instance, generated: result, the two attributes afterwards, rest of the stream output *)
+Definition of_m {A : Type} (f : A -> value F) (m : M F A) (st : bool * F) (us : list F)
+  : res (value F) * (bool * F) * list F :=
+  let '(a, r) := m us in (rmap f a, st, r).
+Definition of_ms (m : list F -> res F * (bool * F) * list F) (us : list F)
+  : res (value F) * (bool * F) * list F :=
+  let '(a, st, r) := m us in (rmap VF a, st, r).
+
+Definition gen_draw_c (d : dist F) (st : bool * F) : list F -> res (value F) * (bool * F) * list F :=
+  match d with
+  | DBernoulli p => of_m VI (gen_DistBernoulli_draw N p) st
+  | DBeta a1 a2 g1 g2 => of_m VF (gen_DistBeta_draw N a1 a2 g1 g2) st
+  | DBinomial n p => of_m VI (gen_DistBinomial_draw N n p) st
+  | DConstant c => of_m (fun v => v) (gen_DistConstant_draw N c) st
+  | DDiscreteUniform lo hi => of_m VI (gen_DistDiscreteUniform_draw N lo hi) st
+  | DErlang scale k lam g => of_m VF (gen_DistErlang_draw N scale k lam g) st
+  | DExponential mean => of_m VF (gen_DistExponential_draw N mean) st
+  | DGamma shape scale => of_m VF (gen_DistGamma_draw N shape scale) st
+  | DGeometric p lnp => of_m VI (gen_DistGeometric_draw N p lnp) st
+  | DLogNormal mu sigma c2 c2p => of_ms (gen_DistLogNormal_draw N mu sigma c2 c2p (fst st) (snd st))
+  | DNegBinomial s p lnp => of_m VI (gen_DistNegBinomial_draw N s p lnp) st
+  | DNormal mu sigma => of_ms (gen_DistNormal_draw N mu sigma (fst st) (snd st))
+  | DNormalTrunc mu sigma lo hi cplo cpdiff fac => of_m VF (gen_DistNormalTrunc_draw N mu sigma lo hi cplo cpdiff fac) st
+  | DPearson5 alpha beta g => of_m VF (gen_DistPearson5_draw N alpha beta g) st
+  | DPearson6 a1 a2 beta g1 g2 => of_m VF (gen_DistPearson6_draw N a1 a2 beta g1 g2) st
+  | DPoisson rate expl => of_m VI (gen_DistPoisson_draw N rate expl) st
+  | DTriangular lo mode hi => of_m VF (gen_DistTriangular_draw N lo mode hi) st
+  | DUniform lo hi => of_m VF (gen_DistUniform_draw N lo hi) st
+  | DWeibull alpha beta => of_m VF (gen_DistWeibull_draw N alpha beta) st
+  end.
+
+Lemma draw_c_of_iv : forall d m st us,
+  (forall cache us, draw N false d cache us = iv N m cache us) ->
+  match d with DLogNormal _ _ _ _ => False | _ => True end ->
+  draw_c N false d (cache_of st) us = ms_view_c (of_m VI m st us).
+Proof.
+  intros d m st us H ND. unfold draw_c. rewrite H. unfold of_m, iv, ms_view_c. unm.
+  destruct d; try contradiction; destruct (m us) as [[a|e] r]; reflexivity.
+Qed.
+
+Lemma draw_c_of_fv : forall d m st us,
+  (forall cache us, draw N false d cache us = fv N m cache us) ->
+  match d with DLogNormal _ _ _ _ => False | _ => True end ->
+  draw_c N false d (cache_of st) us = ms_view_c (of_m VF m st us).
+Proof.
+  intros d m st us H ND. unfold draw_c. rewrite H. unfold of_m, fv, ms_view_c. unm.
+  destruct d; try contradiction; destruct (m us) as [[a|e] r]; reflexivity.
+Qed.
+
+Theorem gen_draw_c_eq : forall d st us, dist_consistent d ->
+  draw_c N false d (cache_of st) us = ms_view_c (gen_draw_c d st us).
+Proof.
+  intros d st us C. destruct d; cbn [gen_draw_c];
+    try (apply draw_c_of_iv; [intros|exact I];
+         first [apply gen_DistBernoulli_draw_eq | apply gen_DistBinomial_draw_eq | apply gen_DistDiscreteUniform_draw_eq
+               | apply gen_DistGeometric_draw_eq | apply gen_DistNegBinomial_draw_eq | apply gen_DistPoisson_draw_eq]);
+    try (apply draw_c_of_fv; [intros|exact I];
+         first [apply gen_DistBeta_draw_eq | apply gen_DistExponential_draw_eq | apply gen_DistNormalTrunc_draw_eq
+               | apply gen_DistPearson5_draw_eq | apply gen_DistPearson6_draw_eq | apply gen_DistTriangular_draw_eq
+               | apply gen_DistUniform_draw_eq | apply gen_DistWeibull_draw_eq
+               | apply gen_DistErlang_draw_eq; exact C
+               | cbn [draw]; unfold fv, bind; rewrite gen_DistGamma_draw_eq; reflexivity]).
+  - (* constant *)
+    unfold draw_c. rewrite gen_DistConstant_draw_eq. unfold of_m, ms_view_c. unm.
+    destruct (gen_DistConstant_draw N c us) as [[a|e] r]; reflexivity.
+  - destruct st as [h sv]. apply gen_DistLogNormal_draw_c_eq.
+  - destruct st as [h sv]. apply gen_DistNormal_draw_c_eq.
+Qed.
+
+(* the density functions as the harness calls them, generated *)
+Definition gen_pdf (d : dist F) (x : F) : res F :=
+  match d with
+  | DBeta a1 a2 g1 g2 => gen_DistBeta_probability_density N a1 a2 g1 g2 x
+  | DConstant c => gen_DistConstant_probability_density N c x
+  | DErlang scale k lam g => gen_DistErlang_probability_density N scale k lam g x
+  | DExponential mean => gen_DistExponential_probability_density N mean x
+  | DGamma shape scale => gen_DistGamma_probability_density N shape scale x
+  | DLogNormal mu sigma c2 c2p => gen_DistLogNormal_probability_density N mu sigma c2 c2p x
+  | DNormal mu sigma => gen_DistNormal_probability_density N mu sigma x
+  | DNormalTrunc mu sigma lo hi cplo cpdiff fac => gen_DistNormalTrunc_probability_density N mu sigma lo hi cplo cpdiff fac x
+  | DPearson5 alpha beta g => gen_DistPearson5_probability_density N alpha beta g x
+  | DPearson6 a1 a2 beta g1 g2 => gen_DistPearson6_probability_density N a1 a2 beta g1 g2 x
+  | DTriangular lo mode hi => gen_DistTriangular_probability_density N lo mode hi x
+  | DUniform lo hi => gen_DistUniform_probability_density N lo hi x
+  | DWeibull alpha beta => gen_DistWeibull_probability_density N alpha beta x
+  | _ => Err Unmodelled
+  end.
+
+Definition gen_prob (d : dist F) (k : Z) : res F :=
+  match d with
+  | DBernoulli p => gen_DistBernoulli_probability N p k
+  | DBinomial n p => gen_DistBinomial_probability N n p k
+  | DDiscreteUniform lo hi => gen_DistDiscreteUniform_probability N lo hi k
+  | DGeometric p lnp => gen_DistGeometric_probability N p lnp k
+  | DNegBinomial s p lnp => gen_DistNegBinomial_probability N s p lnp k
+  | DPoisson rate expl => gen_DistPoisson_probability N rate expl k
+  | _ => Err Unmodelled
+  end.
+
+Definition gen_cdf (d : dist F) (x : F) : res F :=
+  match d with
+  | DNormal mu sigma => gen_DistNormal_cumulative_probability N mu sigma x
+  | DLogNormal mu sigma c2 c2p => gen_DistLogNormal_cumulative_probability N mu sigma c2 c2p x
+  | DNormalTrunc mu sigma lo hi cplo cpdiff fac => gen_DistNormalTrunc_cumulative_probability N mu sigma lo hi cplo cpdiff fac x
+  | _ => Err Unmodelled
+  end.
+
+Definition gen_icdf (d : dist F) (y : F) : res F :=
+  match d with
+  | DNormal mu sigma => gen_DistNormal_inverse_cumulative_probability N mu sigma y
+  | DLogNormal mu sigma c2 c2p => gen_DistLogNormal_inverse_cumulative_probability N mu sigma c2 c2p y
+  | DNormalTrunc mu sigma lo hi cplo cpdiff fac =>
+      gen_DistNormalTrunc_inverse_cumulative_probability N mu sigma lo hi cplo cpdiff fac y
+  | _ => Err Unmodelled
+  end.
+
+Definition gen_call (d : dist F) (m : meth) (a : value F) : res F :=
+  match m, a with
+  | MPdf, VF x => gen_pdf d x
+  | MProb, VI k => gen_prob d k
+  | MCdf, VF x => gen_cdf d x
+  | MInvCdf, VF y => gen_icdf d y
+  | _, _ => Err Unmodelled
+  end.
+
+Theorem gen_pdf_eq : forall d x, gen_pdf d x = pdf N false d x.
+Proof.
+  intros d x. destruct d; try reflexivity; cbn [gen_pdf];
+    first [ apply gen_DistBeta_probability_density_eq | apply gen_DistConstant_probability_density_eq
+          | apply gen_DistErlang_probability_density_eq | apply gen_DistExponential_probability_density_eq
+          | apply gen_DistGamma_probability_density_eq | apply gen_DistLogNormal_probability_density_eq
+          | apply gen_DistNormal_probability_density_eq | apply gen_DistNormalTrunc_probability_density_eq
+          | apply gen_DistPearson5_probability_density_eq | apply gen_DistPearson6_probability_density_eq
+          | apply gen_DistTriangular_probability_density_eq | apply gen_DistUniform_probability_density_eq
+          | apply gen_DistWeibull_probability_density_eq ].
+Qed.
+
+Theorem gen_prob_eq : forall d k, gen_prob d k = prob N d k.
+Proof.
+  intros d k. destruct d; try reflexivity; cbn [gen_prob];
+    first [ apply gen_DistBernoulli_probability_eq | apply gen_DistBinomial_probability_eq
+          | apply gen_DistDiscreteUniform_probability_eq | apply gen_DistGeometric_probability_eq
+          | apply gen_DistNegBinomial_probability_eq | apply gen_DistPoisson_probability_eq ].
+Qed.
+
+Theorem gen_cdf_eq : forall d x, gen_cdf d x = cdf N d x.
+Proof.
+  intros d x. destruct d; try reflexivity; cbn [gen_cdf];
+    first [ apply gen_DistNormal_cumulative_probability_eq | apply gen_DistLogNormal_cumulative_probability_eq
+          | apply gen_DistNormalTrunc_cumulative_probability_eq ].
+Qed.
+
+Theorem gen_icdf_eq : forall d y, gen_icdf d y = icdf N d y.
+Proof.
+  intros d y. destruct d; try reflexivity; cbn [gen_icdf];
+    first [ apply gen_DistNormal_inverse_cumulative_probability_eq | apply gen_DistLogNormal_inverse_cumulative_probability_eq
+          | apply gen_DistNormalTrunc_inverse_cumulative_probability_eq ].
+Qed.
+
+Theorem gen_call_eq : forall d m a, gen_call d m a = call N false d m a.
+Proof.
+  intros d m a. destruct m, a; try reflexivity; cbn [gen_call call];
+    first [apply gen_pdf_eq | apply gen_prob_eq | apply gen_cdf_eq | apply gen_icdf_eq].
+Qed.
+
 End Agree.
+
+Arguments cache_of {N} st.
+Arguments ms_view_c {N A} x.
+
+(* draw_c and draw give the same result and the same rest of the stream output *)
+Lemma draw_c_result : forall (N : num) pv d cache us,
+  match draw N pv d cache us, draw_c N pv d cache us with
+  | (Val (v, _), r), (Val v', _, r') => v = v' /\ r = r'
+  | (Err e, r), (Err e', _, r') => e = e' /\ r = r'
+  | _, _ => False
+  end.
+Proof.
+  intros N pv d cache us.
+  destruct d as [| | | | | | | | |mu sigma c2 c2p| | | | | | | | |]; unfold draw_c;
+    try (destruct (draw N pv _ cache us) as [[[v cc]|e] r]; split; reflexivity).
+  cbn [draw]. unfold bind, lift, ret.
+  destruct (draw_normal N pv mu sigma cache us) as [[t|e] r]; [destruct (nexp N (fst t))|]; split; reflexivity.
+Qed.
+
+Lemma fv_val : forall (N : num) (m : M (T N) (T N)) (c : option (T N)) us v r,
+  fv N m c us = (Val (VF v, c), r) -> m us = (Val v, r).
+Proof.
+  intros N m c us v r H. unfold fv, bind, ret in H. destruct (m us) as [[x|e] r']; inversion H. reflexivity.
+Qed.
+
+(* everything the C14 transfer needs, for every number structure *)
+Theorem dist_draw_generated_agree : forall N : num,
+  (forall c sok ps, gen_ctor N c sok ps = ctor N false c sok ps) /\
+  (forall us, gen_Distribution__next_open_float N us = next_pos N us) /\
+  (forall shape scale us, gen_DistGamma_draw N shape scale us = draw_gamma N false shape scale us) /\
+  (forall d st us, dist_consistent N d ->
+     draw_c N false d (cache_of st) us = ms_view_c (gen_draw_c N d st us)) /\
+  (forall c sok ps d, ctor N false c sok ps = Val d -> dist_consistent N d) /\
+  (forall sok mu sigma d st,
+     gen_DistNormal___init__ N sok mu sigma = Val (d, st) \/ gen_DistLogNormal___init__ N sok mu sigma = Val (d, st) ->
+     cache_of st = None).
+Proof.
+  intro N. repeat split.
+  - apply gen_ctor_eq.
+  - apply gen_Distribution__next_open_float_eq.
+  - apply gen_DistGamma_draw_eq.
+  - intros. apply gen_draw_c_eq. assumption.
+  - apply ctor_consistent.
+  - apply gen_normal_init_no_cache.
+Qed.
+
+(* everything the C15 transfer needs *)
+Theorem dist_density_generated_agree : forall N : num,
+  (forall c sok ps, gen_ctor N c sok ps = ctor N false c sok ps) /\
+  (forall d x, gen_pdf N d x = pdf N false d x) /\
+  (forall d k, gen_prob N d k = prob N d k) /\
+  (forall d x, gen_cdf N d x = cdf N d x) /\
+  (forall d y, gen_icdf N d y = icdf N d y) /\
+  (forall d m a, gen_call N d m a = call N false d m a).
+Proof.
+  intro N. repeat split; [apply gen_ctor_eq | apply gen_pdf_eq | apply gen_prob_eq | apply gen_cdf_eq | apply gen_icdf_eq
+                         | apply gen_call_eq].
+Qed.
